@@ -201,6 +201,8 @@ def check(ctx):
         for n in (0, 1, 2, 3):
             env = {e: (n == 0) for e in empt}
             env.update({l: n for l in lens})
+            for v_ in find_terms(s1, tb, lambda x: is_V(x)):
+                env[('len', v_)] = n
             reach = reach_under(s1, tb, env)
             outs = set()
             for bi, si, t in ret_defs(tb):
